@@ -35,6 +35,7 @@ class Ctl:
         self.thread = None
         self.closed_by = []         # who called close on the fake transport
         self.listener_calls_after_close = 0
+        self.foreign_writes = []    # transport writes issued by a thread other than the session thread
 
     # -- worker side ------------------------------------------------------------------------
     def ask(self, kind, arg=None):
@@ -81,6 +82,8 @@ class FakeSocket:
         self.closed = False
 
     def recv(self, n):
+        if not self.ctl.in_worker():
+            raise RuntimeError('transport read from a thread other than the session thread')
         r = self.ctl.ask('read', n)
         return r
 
@@ -89,6 +92,12 @@ class FakeSocket:
         return 0
 
     def send(self, data):
+        if not self.ctl.in_worker():
+            # a thread other than the session thread writes to the transport: the octets go out at once, wherever the session
+            # thread is with its own frame (the wire then shows what a peer would see)
+            self.ctl.foreign_writes.append(len(data))
+            self.ctl.wire += bytes(data)
+            return len(data)
         n = self.ctl.ask('write', bytes(data))
         if n > 0:
             self.ctl.wire += bytes(data)[:n]
@@ -108,6 +117,8 @@ class FakeChannel(FakeSocket):
     """Stands in for paramiko's Channel in SSHSession."""
 
     def send_ready(self):
+        if not self.ctl.in_worker():
+            return True
         return self.ctl.ask('ready')
 
     def close(self):
